@@ -178,6 +178,14 @@ structure Rule where
   msg : Bytes := []         -- `msg:` text as written ("" = the rule has no msg)
 deriving Repr, DecidableEq
 
+/-- rule_parser.go mergeActions, the `status:` part: the non-disruptive actions of the phase's SecDefaultAction
+    come first and the rule's own actions after them, so a rule uses the default's status unless it states one -/
+def inheritStatus (dst : List (Nat × Nat)) (r : Rule) : Rule :=
+  if r.status != 0 then r else
+  match dst.find? (fun d => d.1 == r.phase) with
+  | some d => { r with status := d.2 }
+  | none => r
+
 structure Intr where
   ruleId : Nat
   action : String
